@@ -148,15 +148,30 @@ def has_both_defs(doc):
 
 
 def gen(rng, tier, n):
+    from . import c07
     ops = []
     depth = 3 if tier == "quick" else 4
     while len(ops) < n:
         draft = "2020" if rng.random() < 0.7 else "7"
+        if draft == "2020" and rng.random() < 0.12:
+            # documents in which annotations matter (contains / properties / in-place applicators under unevaluated*): a decoration
+            # inside an annotation-producing subschema (e.g. a title inside `contains: {}`) must not change what it evaluates
+            o7 = c07.gen_case(rng, tier)
+            doc = o7["args"]["schema"]
+            if o7["args"].get("docs") or not isinstance(doc, Obj):
+                continue
+            doc2, folded = decorate(rng, doc, draft)
+            ops.append({"op": "decorate", "args": {"schema": doc, "schema2": doc2, "insts": o7["args"]["insts"][:8]},
+                        "meta": {"kw": gs.count_keywords(doc), "folded": folded, "c07": True}})
+            continue
         c = gs.Ctx(rng, draft, depth=rng.choice([1, 2, depth]), meta=0)
         doc = gs.gen_document(c, rng.choice(gs.D7_URIS) if draft == "7" else None)
         if not isinstance(doc, Obj):
             continue
         doc2, folded = decorate(rng, doc, draft)
+        if draft == "2020" and rng.random() < 0.15 and isinstance(doc2, Obj) and doc2.get("definitions") is None and doc2.get("$defs") is None:
+            # an unreferenced `definitions` entry at the ROOT of a document without $schema: the draft must stay 2020-12
+            doc2.set("definitions", Obj([("unused", rng.choice([False, Obj([("type", "null")])]))]))
         insts = [gs.gen_instance(rng) for _ in range(6)]
         ops.append({"op": "decorate", "args": {"schema": doc, "schema2": doc2, "insts": insts},
                     "meta": {"kw": gs.count_keywords(doc), "folded": folded}})
